@@ -48,6 +48,8 @@ def plan(tier, seed):
     for i in range(4):
         specs.append({'kind': 'strings', 'slice': [i, 4]})
     specs.append({'kind': 'numbers'})
+    for i in range(2 if tier == 'quick' else 8):
+        specs.append({'kind': 'big', 'count': 2, 'bias': ('shortif', 'mixed')[i % 2]})
     return specs
 
 
@@ -241,6 +243,31 @@ def run_shard(spec, ctx):
     if spec.get('kind') == 'numbers':
         run_numbers(spec, ctx)
         return
+    if spec.get('kind') == 'big':
+        # cart-sized programs (hundreds of statements, several hundred line-scoped shorthands, tens of thousands of characters)
+        workdir = tempfile.mkdtemp(prefix='vf-c01-')
+        try:
+            bias = {'shortif': ['shortif'] * 30 + ['qprint', 'compound'] * 5, 'mixed': ['shortif'] * 8 + ['if', 'do', 'forin', 'function', 'qprint'] * 3}[spec['bias']]
+            done = 0
+            for i in range(spec['count'] * 4):
+                if done >= spec['count']:
+                    break
+                p = progen.gen_program(rng, {'depth': 2, 'max_stmts': 2, 'top_stmts': (400, 250)[i % 2], 'stat_bias': bias, 'goto': False,
+                                             'exotic_numbers': True, 'exotic_strings': True, 'multiline_strings': False,
+                                             'table_methods': 0.3})
+                src = layout.render(p, rng, style=('lines', 'normal', 'tight')[i % 3])
+                if src is None:
+                    ctx.monitor('generator_rejects')
+                    continue
+                done += 1
+                ctx.feature('big_programs')
+                ctx.monitor('big_program_chars', len(src))
+                names = sorted({p.toks[k][1] for k in p.names})
+                check_program(ctx, src, p, CONFIGS[i % 3], names[::3], workdir, i % 2 == 0)
+        finally:
+            shutil.rmtree(workdir, ignore_errors=True)
+        ctx.extra['pairs'] = sorted(ctx.extra.get('pairs', []))
+        return
     workdir = tempfile.mkdtemp(prefix='vf-c01-')
     try:
         for i in range(spec['count']):
@@ -303,6 +330,8 @@ def gates(m, tier):
         missed.append('pair-directed layout used %d times' % f.get('layout_spaced', 0))
     if mon.get('string_literals_aligned', 0) < 5000:
         missed.append('string enumerator through luamin: %d' % mon.get('string_literals_aligned', 0))
+    if f.get('big_programs', 0) < 3:
+        missed.append('cart-sized programs: %d' % f.get('big_programs', 0))
     if mon.get('numerals_aligned', 0) < 2000:
         missed.append('numeral enumerator through luamin: %d' % mon.get('numerals_aligned', 0))
     if f.get('table-method-with-block-then-line-scope', 0) < 30 or f.get('num:random', 0) < 100:
